@@ -1,4 +1,10 @@
+mod build;
+mod c19;
+mod env;
+mod scripted;
+
 fn main() {
-    eprintln!("no sub-commands yet");
-    std::process::exit(2);
+    vf_kit::dispatch! {
+        "c19" => c19::C19,
+    }
 }
